@@ -64,3 +64,16 @@ func (e *Edge) Close() error {
 	e.diag.ClosingEdge(e.Collected(), e.Emitted())
 	return e.StatsEdge.Close()
 }
+
+// CollectUnlessClosed collects m like Collect, but returns ErrAborted instead of panicking
+// when the edge has already been closed. It is meant for goroutines other than the
+// producer that owns the edge, e.g. the timers of a barrier node, which feed delete
+// messages into the node's own input edge while the parent node may be closing it.
+func (e *Edge) CollectUnlessClosed(m edge.Message) error {
+	e.mu.Lock()
+	defer e.mu.Unlock()
+	if e.closed {
+		return ErrAborted
+	}
+	return e.StatsEdge.Collect(m)
+}
